@@ -125,18 +125,56 @@ for _k, _v in LEVEL.items():
 
 NOT_APPLICABLE = {}
 
-# bridge modules (theorems Gen = Model over the regenerated QhttpGen/*.lean) each property depends on
-BRIDGES = {
-    "C16": ["QhttpBridge.Range"],
-    "C18": ["QhttpBridge.Ack", "QhttpBridge.Sock"],
-    "C01": ["QhttpBridge.Tables", "QhttpBridge.Sock"],
-    "C02": ["QhttpBridge.Sock"],
-    "C03": ["QhttpBridge.Tables", "QhttpBridge.Sock"],
-    "C04": ["QhttpBridge.Sock"],
-    "C11": ["QhttpBridge.Sock"],
-    "C19": ["QhttpBridge.Sock"],
-    "C12": ["QhttpBridge.Proxy"],
-    "C13": ["QhttpBridge.Proxy"],
-    "C14": ["QhttpBridge.Copier"],
-    "C08": ["QhttpBridge.Copier"],
+# bridge modules (theorems Gen = Model over the regenerated QhttpGen/*.lean) each property depends on.
+# One module per translated function (plus a Base module of vocabulary facts per group).  BRIDGE_NEEDS gives, per module, the
+# translated functions it speaks about: when the translator reports one of them as outside its subset on the current tree,
+# the module is skipped for that run (the function's tie is then the correspondence alone; recorded in the evidence) instead
+# of counting as a broken obligation.  A module whose functions WERE translated must build and its theorems must check.
+def _sock(*names):
+    return ["QhttpBridge.Sock.Base"] + ["QhttpBridge.Sock." + n for n in names]
+
+SOCK_ALL = _sock("SetStatusCode", "SetHeader", "SetHeaders", "WriteHeaders", "WriteData", "Close", "WriteRedirect", "WriteError", "WriteJson",
+                 "BytesAvailable", "IsHeadersParsed", "ContentLength", "ReadData", "ReadDataSlot", "OnBytesWritten", "OnReadChannelFinished",
+                 "ReadHeaders", "OnReadyRead")
+RANGE_ALL = ["QhttpBridge.Range.Base"] + ["QhttpBridge.Range." + n for n in ("IsValid", "From", "To", "Length", "DataSize", "Ctor3", "CtorResize")]
+PROXY_ALL = ["QhttpBridge.Proxy.Base"] + ["QhttpBridge.Proxy." + n for n in ("OnUpstreamError", "OnUpstreamReadyRead", "OnDownstreamReadyRead")]
+
+BRIDGE_NEEDS = {
+    "QhttpBridge.Sock.SetStatusCode": ["Socket::setStatusCode"], "QhttpBridge.Sock.SetHeader": ["Socket::setHeader"],
+    "QhttpBridge.Sock.SetHeaders": ["Socket::setHeaders"], "QhttpBridge.Sock.WriteHeaders": ["Socket::writeHeaders"],
+    "QhttpBridge.Sock.WriteData": ["Socket::writeData", "Socket::writeHeaders"], "QhttpBridge.Sock.Close": ["Socket::close"],
+    "QhttpBridge.Sock.WriteRedirect": ["Socket::writeRedirect", "Socket::setStatusCode", "Socket::setHeader", "Socket::writeHeaders", "Socket::close"],
+    "QhttpBridge.Sock.WriteError": ["Socket::writeError", "Socket::setStatusCode", "Socket::setHeader", "Socket::writeHeaders", "Socket::writeData", "Socket::close"],
+    "QhttpBridge.Sock.WriteJson": ["Socket::writeJson", "Socket::setStatusCode", "Socket::setHeader", "Socket::writeHeaders", "Socket::writeData", "Socket::close"],
+    "QhttpBridge.Sock.BytesAvailable": ["Socket::bytesAvailable"], "QhttpBridge.Sock.IsHeadersParsed": ["Socket::isHeadersParsed"],
+    "QhttpBridge.Sock.ContentLength": ["Socket::contentLength"], "QhttpBridge.Sock.ReadData": ["Socket::readData"],
+    "QhttpBridge.Sock.ReadDataSlot": ["SocketPrivate::readData"], "QhttpBridge.Sock.OnBytesWritten": ["SocketPrivate::onBytesWritten"],
+    "QhttpBridge.Sock.OnReadChannelFinished": ["SocketPrivate::onReadChannelFinished"],
+    "QhttpBridge.Sock.ReadHeaders": ["SocketPrivate::readHeaders", "Socket::writeError", "Socket::setStatusCode", "Socket::setHeader", "Socket::writeHeaders", "Socket::writeData", "Socket::close"],
+    "QhttpBridge.Sock.OnReadyRead": ["SocketPrivate::onReadyRead", "SocketPrivate::readHeaders", "SocketPrivate::readData", "Socket::writeError", "Socket::setStatusCode",
+                                     "Socket::setHeader", "Socket::writeHeaders", "Socket::writeData", "Socket::close"],
+    "QhttpBridge.Range.IsValid": ["Range::isValid"], "QhttpBridge.Range.From": ["Range::from", "Range::isValid"], "QhttpBridge.Range.To": ["Range::to", "Range::isValid"],
+    "QhttpBridge.Range.Length": ["Range::length", "Range::isValid", "Range::from", "Range::to"], "QhttpBridge.Range.DataSize": ["Range::dataSize"],
+    "QhttpBridge.Range.Ctor3": ["Range::Range/3"], "QhttpBridge.Range.CtorResize": ["Range::Range/2"],
+    "QhttpBridge.Ack": ["SocketPrivate::onBytesWritten"],
+    "QhttpBridge.Copier": ["QIODeviceCopierPrivate::nextBlock"],
+    "QhttpBridge.Tables": ["SocketPrivate::statusReason", "Parser::parseRequestHeaders (tables)", "ProxySocket::methodToString"],
+    "QhttpBridge.Proxy.OnUpstreamError": ["ProxySocket::onUpstreamError"], "QhttpBridge.Proxy.OnUpstreamReadyRead": ["ProxySocket::onUpstreamReadyRead"],
+    "QhttpBridge.Proxy.OnDownstreamReadyRead": ["ProxySocket::onDownstreamReadyRead"],
 }
+
+BRIDGES = {
+    "C16": RANGE_ALL,
+    "C18": ["QhttpBridge.Ack"] + SOCK_ALL,
+    "C01": ["QhttpBridge.Tables"] + SOCK_ALL,
+    "C02": SOCK_ALL,
+    "C03": ["QhttpBridge.Tables"] + SOCK_ALL,
+    "C04": SOCK_ALL,
+    "C11": SOCK_ALL,
+    "C19": SOCK_ALL,
+    "C12": PROXY_ALL,
+    "C13": PROXY_ALL,
+    "C14": ["QhttpBridge.Copier"],
+    "C08": ["QhttpBridge.Copier"] + RANGE_ALL,
+}
+ALL_BRIDGE_MODULES = sorted({m for v in BRIDGES.values() for m in v})
